@@ -11,6 +11,7 @@ class Loop:
     ghost_update: dict = field(default_factory=dict)  # name -> expr over end-of-body state
     types: dict = field(default_factory=dict)         # havoc sort overrides: name -> 'int'|'real'|'bool'|'opt_int'
     extra_modifies: list = field(default_factory=list)
+    instances: list = field(default_factory=list)     # [(label, expr)]: instances of assumed world axioms, assumed at the loop head
     unroll: int = 0            # >0: unroll completely; the obligation loopK.unwind.complete makes it a proof, not a bound
 
     def inv(self):
